@@ -157,10 +157,10 @@ var blockish = map[string]bool{"P": true, "DIV": true, "H": true, "UL": true, "O
 // spans two text nodes.
 func (g *docGen) padded(n *cnode, w string) string {
 	left, right := " ", " "
-	if g.rng.Intn(2) == 0 && blockish[n.leftK] {
+	if g.rng.Intn(3) != 0 && blockish[n.leftK] {
 		left = ""
 	}
-	if g.rng.Intn(2) == 0 && blockish[n.rightK] {
+	if g.rng.Intn(3) != 0 && blockish[n.rightK] {
 		right = ""
 	}
 	return left + w + right
